@@ -62,6 +62,44 @@ pub fn oracle(s: &[u8]) -> Result<&'static str, (String, String)> {
     }
 }
 
+/// the same verdict through the other public entry points: a complete wrong-checksum candidate between valid frames must
+/// not be delivered or counted by next_msg_frame, MsgFrameIter::next, nth, skip or count
+pub fn oracle_entry_points(valid: &[u8], candidate: &[u8]) -> Result<(), (String, String)> {
+    use crate::frame::ref_scan_all;
+    let mut buf = valid.to_vec();
+    buf.extend_from_slice(candidate);
+    buf.extend_from_slice(valid);
+    buf.extend_from_slice(valid);
+    let (rf, _) = ref_scan_all(&buf);
+    let base = buf.as_ptr() as usize;
+    let range = |m: &MessageFrame| {
+        let a = (m.frame_data().as_ptr() as usize).wrapping_sub(base);
+        (a, a + m.frame_len())
+    };
+    let mut it = MsgFrameIter::new(&buf);
+    let all: Vec<(usize, usize)> = (&mut it).map(|m| range(&m)).collect();
+    if all != rf {
+        return Err(("c03:iterator-acceptance".into(), format!("iterator delivers {:?}, the acceptance predicate gives {:?}", all, rf)));
+    }
+    for k in 0..=rf.len() {
+        let mut it = MsgFrameIter::new(&buf);
+        let got = (&mut it).nth(k).map(|m| range(&m));
+        if got != rf.get(k).copied() {
+            return Err(("c03:iterator-acceptance".into(), format!("nth({}) delivers {:?}, the acceptance predicate gives {:?}", k, got, rf.get(k))));
+        }
+    }
+    let mut it = MsgFrameIter::new(&buf);
+    if (&mut it).count() != rf.len() {
+        return Err(("c03:iterator-acceptance".into(), "count() differs from the number of accepted frames".into()));
+    }
+    let mut it = MsgFrameIter::new(&buf);
+    let sk: Vec<(usize, usize)> = (&mut it).skip(1).map(|m| range(&m)).collect();
+    if sk != rf.iter().skip(1).copied().collect::<Vec<_>>() {
+        return Err(("c03:iterator-acceptance".into(), "skip(1) differs from the accepted frames".into()));
+    }
+    Ok(())
+}
+
 fn viol(sig: String, msg: String, s: &[u8], how: &str) -> Violation {
     Violation {
         property: "C03".into(),
@@ -75,15 +113,26 @@ pub fn run(ctx: &Ctx, replay: Option<&J>) -> CheckResult {
     crate::crc::self_check();
     let rule = "for every payload length L=0..=1023: frames with random payload and random reserved bits, and near-misses derived \
         from them (wrong preamble, every truncation length 0..L+5, each checksum bit flipped, checksum byte changed/swapped, \
-        length field +-1/random with and without trailing bytes, payload bit flips, trailing bytes, other reserved bits; all 64 reserved-bit patterns for every length = all 65536 header patterns, alone and followed by >1029 bytes; frames at the start of slices of 65535..131077 bytes), plus random \
+        length field +-1/random with and without trailing bytes, payload bit flips, trailing bytes, other reserved bits; all 64 reserved-bit patterns for every length = all 65536 header patterns, alone and followed by >1029 bytes; frames at the start of slices of 65535..131077 bytes; frames whose checksum is 0x000000, 0xFFFFFF, 0xD30000 and ten more special values, with their near-misses), plus random \
         and D3-prefixed random slices; oracle = own CRC-24Q acceptance predicate compared with MessageFrame::new incl. \
-        reported lengths/payload/checksum and error kind. non-trivial = accepted frame or near-miss derived from one; distinct = hash of the slice bytes"
+        reported lengths/payload/checksum and error kind; wrong-checksum candidates between valid frames are also looked at through next_msg_frame-based iteration (next, nth, skip, count) which must deliver exactly the accepted frames. non-trivial = accepted frame or near-miss derived from one; distinct = hash of the slice bytes"
         .to_string();
     let assumptions = vec![
         "reference CRC-24Q implemented bitwise from the generator 0x1864CFB and self-checked against the catalogue value 0xCDE703".to_string(),
         "for slices not starting with 0xD3 only 'not accepted' is asserted (the statement fixes no error kind there)".to_string(),
     ];
     if let Some(case) = replay {
+        if case["kind"] == "entry-points" {
+            let v = unhex(case["valid"].as_str().unwrap_or("")).unwrap_or_default();
+            let c = unhex(case["candidate"].as_str().unwrap_or("")).unwrap_or_default();
+            let mut ev = Evidence::new();
+            ev.eval();
+            let mut vs = Vec::new();
+            if let Err((sig, msg)) = oracle_entry_points(&v, &c) {
+                vs.push(Violation { property: "C03".into(), signature: sig, message: msg, case: case.clone() });
+            }
+            return CheckResult { evidence: ev, rule, assumptions, violations: vs };
+        }
         let mut s = unhex(case["bytes"].as_str().unwrap_or("")).unwrap_or_default();
         if case["kind"] == "long-slice" {
             s = unhex(case["frame"].as_str().unwrap_or("")).unwrap_or_default();
@@ -183,6 +232,25 @@ pub fn run(ctx: &Ctx, replay: Option<&J>) -> CheckResult {
                     g[n - 3 + b / 8] ^= 0x80 >> (b % 8);
                     go(&mut ev, &mut vs, &g, "crc-bit", true);
                 }
+                // the near-misses seen through scanner and iterator (every 16th length; short frames only to keep it cheap)
+                if rep == 0 && (l % 16 == 0 || l < 8) && l <= 256 {
+                    for b in [0usize, 7, 23] {
+                        let mut g = f.clone();
+                        let n = g.len();
+                        g[n - 3 + b / 8] ^= 0x80 >> (b % 8);
+                        ev.eval();
+                        match oracle_entry_points(&f, &g) {
+                            Ok(()) => ev.class("entry-points/near-miss-between-valid-frames"),
+                            Err((sig, msg)) => {
+                                if vs.len() < 3 {
+                                    let mut all = f.clone();
+                                    all.extend_from_slice(&g);
+                                    vs.push(Violation { property: "C03".into(), signature: sig, message: msg, case: json!({"kind":"entry-points","valid":hex(&f),"candidate":hex(&g)}) });
+                                }
+                            }
+                        }
+                    }
+                }
                 // checksum off by one byte / bytes swapped
                 for b in 0..3 {
                     let mut g = f.clone();
@@ -259,6 +327,45 @@ pub fn run(ctx: &Ctx, replay: Option<&J>) -> CheckResult {
     for (e, v) in parts {
         ev.merge(e);
         vs.extend(v);
+    }
+    // frames whose CRC-24Q has a special value (0x000000, 0xFFFFFF, 0xD30000, ...) and their near-misses
+    {
+        let mut rng = ctx.rng("c03-special-crc", 0);
+        for (k, target) in crate::pool::SPECIAL_CRCS.iter().enumerate() {
+            for l in [3usize, 4, 5, 9, 64, 300, 1023] {
+                let f = crate::pool::frame_with_crc(&mut rng, l, if k % 3 == 0 { 0 } else { (k * 5) as u8 & 63 }, *target);
+                let mut cases: Vec<(Vec<u8>, &str)> = vec![(f.clone(), "special-crc/valid")];
+                for b in 0..24 {
+                    let mut g = f.clone();
+                    let n = g.len();
+                    g[n - 3 + b / 8] ^= 0x80 >> (b % 8);
+                    cases.push((g, "special-crc/crc-bit"));
+                }
+                for _ in 0..8 {
+                    let mut g = f.clone();
+                    let bit = 24 + rng.below((l as u64) * 8) as usize;
+                    g[bit / 8] ^= 0x80 >> (bit % 8);
+                    cases.push((g, "special-crc/payload-bit"));
+                }
+                let mut g = f.clone();
+                g.extend_from_slice(&rng.bytes(9));
+                cases.push((g, "special-crc/valid+trailing"));
+                for (c, how) in cases {
+                    ev.evaluations += 1;
+                    match oracle(&c) {
+                        Ok(cl) => {
+                            ev.class(&format!("{}/{}", how, cl));
+                            ev.nontrivial_bytes(&c);
+                        }
+                        Err((sig, msg)) => {
+                            if !vs.iter().any(|v: &Violation| v.signature == sig) {
+                                vs.push(viol(sig, format!("frame with checksum {:06x}: {}", target, msg), &c, how));
+                            }
+                        }
+                    }
+                }
+            }
+        }
     }
     // very long slices: a valid (or nearly valid) frame followed by so much data that the slice length crosses 2^16, 2^17
     // (lengths chosen around the wrap points of 16-bit arithmetic, incl. len mod 65536 < L+6)
